@@ -436,7 +436,18 @@ func MergeFuncUpdateCgroup(resource ResourceUpdater, mergeCondition MergeConditi
 	klog.V(6).Infof("merge update cgroup %v with merged value[%v], original new[%v], old[%v]",
 		c.Path(), mergedValue, c.value, oldStr)
 	// suppose current value is different
-	return resource, cgroupFileWrite(c.parentDir, c.file, mergedValue)
+	if err = cgroupFileWrite(c.parentDir, c.file, mergedValue); err != nil {
+		return resource, err
+	}
+	// NOTE: the returned updater is what the executor caches as the last written value. When the merged value
+	// differs from the new value (e.g. the union of the old and new cpuset), return the merged one so that the
+	// following exact pass still writes the new value.
+	if mergedValue != c.value {
+		merged := resource.Clone().(*CgroupResourceUpdater)
+		merged.value = mergedValue
+		return merged, nil
+	}
+	return resource, nil
 }
 
 // MergeConditionIfValueIsLarger returns a merge condition where only do update when the new value is larger.
